@@ -1,0 +1,130 @@
+//go:build verif
+
+// Package vhook holds the verification hooks of qiloop. With the
+// "verif" build tag, events are stamped with a process-wide sequence
+// number and handed to the installed sink; gates let a test harness
+// block a goroutine at a named point.
+package vhook
+
+import (
+	"encoding/json"
+	"fmt"
+	"os"
+	"reflect"
+	"sync"
+)
+
+// Enabled reports if the hooks are compiled in.
+const Enabled = true
+
+// Event is one recorded step.
+type Event struct {
+	Seq  uint64
+	Comp string
+	Inst int
+	Ev   string
+	KV   []interface{}
+}
+
+var (
+	mu     sync.Mutex
+	seq    uint64
+	ids    = map[uintptr]int{}
+	keep   []interface{} // keeps identified objects alive so addresses are not reused
+	nextID int
+	sink   func(Event)
+	gates  sync.Map // point -> func(kv ...interface{})
+	file   *os.File
+)
+
+func init() {
+	if path := os.Getenv("QILOOP_VERIF_TRACE"); path != "" {
+		f, err := os.OpenFile(fmt.Sprintf("%s.%d", path, os.Getpid()),
+			os.O_CREATE|os.O_WRONLY|os.O_APPEND, 0644)
+		if err == nil {
+			file = f
+			sink = func(e Event) {
+				b, _ := json.Marshal(e.Map())
+				file.Write(append(b, '\n'))
+			}
+		}
+	}
+}
+
+// Map renders the event as a flat map (the ndjson form).
+func (e Event) Map() map[string]interface{} {
+	m := map[string]interface{}{"seq": e.Seq, "comp": e.Comp, "inst": e.Inst, "ev": e.Ev}
+	for i := 0; i+1 < len(e.KV); i += 2 {
+		if k, ok := e.KV[i].(string); ok {
+			m[k] = e.KV[i+1]
+		}
+	}
+	return m
+}
+
+func idLocked(p interface{}) int {
+	if p == nil {
+		return 0
+	}
+	v := reflect.ValueOf(p)
+	var key uintptr
+	switch v.Kind() {
+	case reflect.Ptr, reflect.Chan, reflect.Map, reflect.Func, reflect.UnsafePointer:
+		key = v.Pointer()
+	default:
+		return 0
+	}
+	if key == 0 {
+		return 0
+	}
+	id, ok := ids[key]
+	if !ok {
+		nextID++
+		id = nextID
+		ids[key] = id
+		keep = append(keep, p)
+	}
+	return id
+}
+
+// ID returns a small process-wide identifier for the object p
+// (pointer identity).
+func ID(p interface{}) int {
+	mu.Lock()
+	defer mu.Unlock()
+	return idLocked(p)
+}
+
+// SetSink installs the event sink (nil disables recording). The sink
+// is called with the package lock held: sequence order is call order.
+func SetSink(f func(Event)) {
+	mu.Lock()
+	sink = f
+	mu.Unlock()
+}
+
+// Emit records an event of the instance inst of component comp.
+func Emit(comp string, inst interface{}, ev string, kv ...interface{}) {
+	mu.Lock()
+	if sink != nil {
+		seq++
+		sink(Event{Seq: seq, Comp: comp, Inst: idLocked(inst), Ev: ev, KV: kv})
+	}
+	mu.Unlock()
+}
+
+// SetGate installs (or, with nil, removes) the gate of a point.
+func SetGate(point string, f func(kv ...interface{})) {
+	if f == nil {
+		gates.Delete(point)
+		return
+	}
+	gates.Store(point, f)
+}
+
+// Gate blocks the caller if a gate is installed for point.
+func Gate(point string, kv ...interface{}) {
+	if f, ok := gates.Load(point); ok {
+		f.(func(kv ...interface{}))(kv...)
+	}
+}
